@@ -86,6 +86,9 @@ func compareContent(s stackage.Stack, m *ListModel, where string) *Violation {
 		if got != want {
 			return violf(where+"/index", "%s: Index(%d)=%#v, model %#v (model content %v)", where, i, got, want, m.Elems)
 		}
+		if msg := probeIntact(got); msg != "" {
+			return violf("stored-value-modified", "%s: an operation on the holding stack changed a value stored in it: %s", where, msg)
+		}
 		if ok != (want != nil) {
 			return violf(where+"/indexflag", "%s: Index(%d) flag=%v for value %#v", where, i, ok, want)
 		}
@@ -401,10 +404,16 @@ func genC01(t *rapid.T, tier Tier) C01Case {
 		switch o.Op {
 		case "popn":
 			o.A = rapid.IntRange(2, 30).Draw(t, "drain")
+			if rapid.IntRange(0, 9).Draw(t, "bigdrain?") == 0 {
+				o.A = rapid.IntRange(200, 600).Draw(t, "bigdrain")
+			}
 		case "push":
 			k := rapid.IntRange(0, 4).Draw(t, "batch")
 			if rapid.IntRange(0, 7).Draw(t, "bulk?") == 0 {
 				k = rapid.IntRange(9, 70).Draw(t, "bulk") // past the allocator's growth steps
+				if rapid.IntRange(0, 5).Draw(t, "huge?") == 0 {
+					k = rapid.IntRange(250, 600).Draw(t, "huge") // past one byte's worth of positions
+				}
 			}
 			for j := 0; j < k; j++ {
 				o.Nils = append(o.Nils, rapid.IntRange(0, 99).Draw(t, "nil?") < 15)
